@@ -1,5 +1,5 @@
 (* C13 property theorems: package encryption layer and compound-file geometry. *)
-From VF Require Import Base.Prelude Generated.Consts C13.Model C13.Proofs.
+From VF Require Import Base.Prelude Generated.Consts C13.Model C13.Proofs C13.Chains C13.ChainProofs.
 
 (* for every payload and every block cipher whose decryption inverts its encryption: Decrypt(Encrypt(b)) = b
    (size prefix, zero padding to 16, ECB, truncation) *)
@@ -33,6 +33,79 @@ Theorem C13_locate_total : forall sizes npaths,
 Proof. exact locate_total. Qed.
 Print Assumptions C13_locate_total.
 
+(* the FAT the writer emits for that layout (crypt.go:writeSectorChains), for every list of stream sizes: it fills
+   exactly the FAT sectors the layout reserved; a reader following it from the start sector of the mini FAT, of the
+   directory, of any stream of 4096 bytes and more, or of the mini stream container visits exactly the consecutive
+   sectors that object needs and then meets ENDOFCHAIN; these sector intervals are pairwise disjoint and in layout
+   order; and the start sectors written to the header and the root entry are the starts of these chains *)
+Theorem C13_fat_chains : forall sizes npaths g t st,
+  (forall s, In s sizes -> 0 <= s) -> 0 <= npaths -> locate sizes npaths = Some g ->
+  fat_table g sizes = (t, st) ->
+  let lens := fat_lens g sizes in
+  Z.of_nat (length t) = 128 * g_fat g /\
+  length st = length lens /\
+  (forall j, (j < length lens)%nat -> (0 < nth j lens O)%nat ->
+     walk t (nth j lens O) (nth j st FREE) = Some (seqZ (nth j st FREE) (nth j lens O))) /\
+  (forall j k, (j < k)%nat -> (k < length lens)%nat -> nth j st FREE + Z.of_nat (nth j lens O) <= nth k st FREE) /\
+  (forall j, (j < length lens)%nat ->
+     nth j st FREE = g_difat g + g_fat g + Z.of_nat (sumN (firstn j lens))) /\
+  nth 0 st FREE = g_difat g + g_fat g /\
+  nth 1 st FREE = g_difat g + g_fat g + g_minifat g /\
+  nth (S (S (length sizes))) st FREE = g_ministream_start g - 1.
+Proof. exact (fat_table_chains fat_fuel). Qed.
+Print Assumptions C13_fat_chains.
+
+(* the mini FAT: it fills exactly the mini FAT sectors of the layout, every stream below 4096 bytes is read back as
+   consecutive mini sectors, pairwise disjoint, all inside the mini stream container the root entry describes *)
+Theorem C13_minifat_chains : forall sizes npaths g t st,
+  (forall s, In s sizes -> 0 <= s) -> 0 <= npaths -> locate sizes npaths = Some g ->
+  minifat_table sizes = (t, st) ->
+  let lens := map nmini sizes in
+  Z.of_nat (length t) = 128 * g_minifat g /\
+  length st = length lens /\
+  (forall j, (j < length lens)%nat -> (0 < nth j lens O)%nat ->
+     walk t (nth j lens O) (nth j st FREE) = Some (seqZ (nth j st FREE) (nth j lens O))) /\
+  (forall j k, (j < k)%nat -> (k < length lens)%nat -> nth j st FREE + Z.of_nat (nth j lens O) <= nth k st FREE) /\
+  (forall j, (j < length lens)%nat -> nth j st FREE = Z.of_nat (sumN (firstn j lens))) /\
+  (forall j, (j < length lens)%nat -> nth j st FREE + Z.of_nat (nth j lens O) <= g_mini g).
+Proof. exact (minifat_table_chains fat_fuel). Qed.
+Print Assumptions C13_minifat_chains.
+
+(* writer and reader end to end for the streams of 4096 bytes and more (EncryptedPackage): the bytes a reader
+   extracts by following the FAT from the stream's start sector and cutting to the stream size are the bytes that
+   were put, for every list of stream contents, whatever the other sectors hold *)
+Theorem C13_stream_read_back : forall contents npaths g t st img mfb db cb j,
+  let sizes := map (fun c : bytes => Z.of_nat (length c)) contents in
+  0 <= npaths -> locate sizes npaths = Some g -> fat_table g sizes = (t, st) ->
+  (j < length contents)%nat -> 4096 <= Z.of_nat (length (nth j contents [])) ->
+  read_stream (put_streams 512 img st (fat_lens g sizes) (mfb :: db :: contents ++ [cb])) t
+              (nsec (Z.of_nat (length (nth j contents [])))) (nth (S (S j)) st FREE) (length (nth j contents []))
+  = Some (nth j contents []).
+Proof. exact (big_stream_read_back fat_fuel). Qed.
+Print Assumptions C13_stream_read_back.
+
+(* the same for any table and any block size (used with 64-byte mini sectors and the mini FAT): streams stored
+   block after block at pairwise disjoint, ordered sector intervals are read back through their chains *)
+Theorem C13_read_back : forall bsz starts lens contents t img j,
+  (0 < bsz)%nat -> length starts = length lens -> length contents = length lens ->
+  (forall a b, (a < b)%nat -> (b < length lens)%nat -> nth a starts FREE + Z.of_nat (nth a lens O) <= nth b starts FREE) ->
+  (j < length lens)%nat ->
+  walk t (nth j lens O) (nth j starts FREE) = Some (seqZ (nth j starts FREE) (nth j lens O)) ->
+  (length (nth j contents []) <= bsz * nth j lens O)%nat ->
+  read_stream (put_streams bsz img starts lens contents) t (nth j lens O) (nth j starts FREE) (length (nth j contents []))
+  = Some (nth j contents []).
+Proof. exact read_back. Qed.
+Print Assumptions C13_read_back.
+
 Example C13_ex_geometry : locate [248; 7340040] 3 =
   Some (mkGeo 1 113 1 1 14337 4 14454 14455).
+Proof. vm_compute. reflexivity. Qed.
+
+(* the same sizes: FAT of 14464 words = 113 sectors, the package chain starts at sector 116 (1 DIFAT + 113 FAT +
+   1 mini FAT + 1 directory sector before it), the container at 14453 *)
+Example C13_ex_fat : match locate [248; 7340040] 3 with
+  | Some g => let '(t, st) := fat_table g [248; 7340040] in
+              (Z.of_nat (length t), st, nth (Z.to_nat 116) t 0, nth (Z.to_nat 14452) t 0, nth (Z.to_nat 14453) t 0, walk t 1 14453)
+  | None => (0, [], 0, 0, 0, None) end
+  = (14464, [114; 115; 116; 116; 14453], 117, EOC, EOC, Some [14453]).
 Proof. vm_compute. reflexivity. Qed.
